@@ -243,6 +243,8 @@ pub struct PathCheck {
     /// (the shape the split run takes once clip operations have been filtered out)
     pub ins_run_at_clipped_yend: bool,
     pub del_run_at_clipped_xend: bool,
+    /// the operation list contains a zero-length clip operation (banded aligner only)
+    pub has_zero_len_clip: bool,
 }
 
 /// Cursor walk over the operations.  `tolerate_zero_len_clips`: banded aligner emits `Yclip(0)`.
@@ -280,6 +282,7 @@ pub fn validate(
         del_run_split_by_clip: false,
         ins_run_at_clipped_yend: false,
         del_run_at_clipped_xend: false,
+        has_zero_len_clip: false,
     };
     for op in &al.operations {
         match *op {
@@ -289,6 +292,7 @@ pub fn validate(
                 }
                 if k == 0 {
                     if tolerate_zero_len_clips {
+                        pc.has_zero_len_clip = true;
                         continue;
                     }
                     return Err("zero-length Xclip".into());
@@ -314,6 +318,7 @@ pub fn validate(
                 }
                 if k == 0 {
                     if tolerate_zero_len_clips {
+                        pc.has_zero_len_clip = true;
                         continue;
                     }
                     return Err("zero-length Yclip".into());
